@@ -38,6 +38,7 @@ def run(ctx: RuleContext):
     ctx.sub(check_passthrough_guard, ctx, r)
     ctx.sub(check_push_cannot_fail_after_append, ctx, r)
     ctx.sub(check_only_innermost_frame_is_read, ctx, r)
+    ctx.sub(check_no_frame_state_beside_the_stack, ctx, r)
 
 
 # ------------------------------------------------------------------------ C05.5
@@ -769,3 +770,56 @@ def check_only_innermost_frame_is_read(ctx: RuleContext, r):
     ctx.floor("C05.8", "stack_uses", 4)
     if not bad:
         ctx.ok("C05.8", "_storage", f"all {n_uses} uses of the context stack push, pop, measure or index its top")
+
+
+# ------------------------------------------------------------------------ C05.9
+def check_no_frame_state_beside_the_stack(ctx: RuleContext, r):
+    """C05.9: everything that belongs to one activation lives *in its frame*.  A thread-local (or module-level) slot that the push function
+    re-initialises for the new frame -- a per-call cache, a "current arguments" pointer -- and that the pop function does not put back is
+    not unwound with the stack: after a nested or recursive call returns, the caller goes on with the callee's slot."""
+    m = ctx.model
+    push = follow_delegate(m, r.push)
+    pop = follow_delegate(m, r.pop) if getattr(r, "pop", None) is not None else None
+    need(pop is not None, "C05.9: the pop primitive was not found")
+    stack_tl, stack_attr, _ = locate_stack(r)
+    al = r.local_aliases(push)
+
+    def slot_stores(fn):
+        out = {}
+        a_ = r.local_aliases(fn)
+        for st in walk_scope(fn.node):
+            tgts = st.targets if isinstance(st, ast.Assign) else [st.target] if isinstance(st, (ast.AugAssign, ast.AnnAssign)) and getattr(st, "value", None) is not None else []
+            for t in tgts:
+                for x in ([t] if not isinstance(t, ast.Tuple) else t.elts):
+                    if isinstance(x, ast.Attribute):
+                        tl = r.tl_of_expr(fn, x, a_)
+                        if tl is not None and tl[1]:
+                            out.setdefault((tl[0], tl[1][0]), st)
+                        elif isinstance(x.value, ast.Name) and m.resolve_name(fn, x.value.id).kind == "modvar":
+                            out.setdefault((x.value.id, x.attr), st)
+                    elif isinstance(x, ast.Name) and any(isinstance(g_, ast.Global) and x.id in g_.names for g_ in ast.walk(fn.node)):
+                        out.setdefault(("<global>", x.id), st)
+        return out
+
+    pushed = {k: v for k, v in slot_stores(push).items() if k != (stack_tl, stack_attr)}
+    popped = slot_stores(pop)
+    ctx.saw(push)
+    ctx.saw(pop)
+    ctx.counters["push_pop_functions"] = 2
+    for (root, attr), st in sorted(pushed.items(), key=lambda kv: kv[0][1]):
+        if (root, attr) in popped:
+            raise AnalysisError(f"C05.9: `{short(st, 50)}` in {push.qualname} sets a per-frame slot beside the stack and {pop.qualname} writes it too; whether the caller's value is "
+                                "put back is not decided")
+        v_ = getattr(st, "value", None)
+        if isinstance(v_, ast.Constant):
+            # an initialisation flag: every store to the slot anywhere in the package stores this very constant -> idempotent
+            others = [x for f2 in m.all_functions(include_typeguard=False) for x in walk_scope(f2.node) if isinstance(x, ast.Assign)
+                      and any(isinstance(t_, ast.Attribute) and t_.attr == attr for t_ in x.targets)]
+            if others and all(isinstance(x.value, ast.Constant) and x.value.value == v_.value for x in others):
+                ctx.ok("C05.9", push.qualname, f"`{short(st, 50)}`: the only value this slot ever gets (an initialisation flag)")
+                continue
+        ctx.bad("C05.9", push, st, f"`{short(st, 60)}`: the push function re-initialises the slot `{attr}` for the new frame, but it is not part of the frame and {pop.qualname} does not put "
+                "the caller's value back: after a nested or recursive call returns, the caller continues with the callee's slot (its own was overwritten)",
+                construct=f"per-frame state beside the stack: {attr}")
+    if not pushed:
+        ctx.ok("C05.9", push.qualname, f"the push function writes no thread-local / module-level slot besides the stack `{stack_attr}`")
